@@ -14,6 +14,20 @@ def _tag(line, out):
 
 
 def run(ctx):
+    import os
+    import shutil
+    import tempfile
+    # scratch directories of the harness live on a memory file system when there is one (independent of disk load);
+    # one parent per run so that whatever a killed harness leaves behind is removed here
+    base = "/dev/shm" if os.path.isdir("/dev/shm") and os.access("/dev/shm", os.W_OK) else None
+    scratch = tempfile.mkdtemp(prefix="c12run-", dir=base)
+    try:
+        _run(ctx, {"C12_TMP": scratch})
+    finally:
+        shutil.rmtree(scratch, ignore_errors=True)
+
+
+def _run(ctx, env):
     import time
     t0 = time.time()
     marks = {}
@@ -42,19 +56,22 @@ def run(ctx):
     ctx.extra["phase_times"] = marks
     ctx.diff(area="rot", driver="drv_c12", n={"quick": 160000, "thorough": 6000000}, stateful=True,
              trivial=lambda l, o: o in ("norot", "sync=nil", "nopath", "new=err"),
-             tagger=_tag,
+             tagger=_tag, extra_env=env,
              theorem="C12.write_terminates / write_whole / retained_is_suffix / size_bound / backup_count / "
                      "preexisting_appended / close_then_write (model = spec); impl != model on this input "
                      "(`hang` = the Write did not return within the deadline)")
+    ctx.diff(area="rotdef", driver="drv_c12", n=1, shards=1, stateful=True, extra_env=env,
+             theorem="C12.new_defaults (limits of a rotator built without MaxSize/MaxBackups options) + the theorems "
+                     "above; impl != model on this input")
     marks["diff_s"] = round(time.time() - t0, 1)
     if ctx.violations:
         return  # the sequential behaviour is already refuted; the stress runs would only wait for hung writers
-    ctx.impl_oracle("stress", {"quick": 24, "thorough": 400},
+    ctx.impl_oracle("stress", {"quick": 24, "thorough": 400}, extra_env=env,
                     label="concurrent writers: whole records, per-writer suffix, size and backup bounds")
     marks["stress_s"] = round(time.time() - t0, 1)
     if ctx.harness("./cmd/c12", name="race", race=True):
         marks["racebuild_s"] = round(time.time() - t0, 1)
         ctx.impl_oracle("stress", {"quick": 6, "thorough": 120}, name="race",
-                        extra_env={"GORACE": "halt_on_error=1 exitcode=66"},
+                        extra_env=dict(env, GORACE="halt_on_error=1 exitcode=66"),
                         label="the same under the race detector (a reported race kills the harness)")
     marks["end_s"] = round(time.time() - t0, 1)
